@@ -1,22 +1,22 @@
 """C15 -- timestamps are written in canonical form, truncated, order-preserving."""
-from engine.spec import JOB
+from engine.spec import CH, JOB
 from props.j_time import STUB_NOTES
 
 M = "props.j_time"
 F = ["stix2.utils.format_datetime", "stix2.utils.parse_into_datetime", "stix2.utils.to_enum"]
 
 META = {
-    "engines": ["pysym"],
+    "engines": ["pysym", "crosshair"],
     "level_text": "Bounded symbolic model checking of the real format_datetime / parse_into_datetime source (AST re-read from /repo on every run, "
                   "interpreted over z3 integers and per-character symbolic strings): every year 1-9999, every field value, all 10^6 microsecond "
                   "values, naive and UTC-aware, 3 precisions x 2 constraints, input fraction length 0-9 with symbolic digits; one QF_LIA query per "
                   "feasible path against an independent integer-arithmetic formatter. Right level: the kernels are digit manipulation, where "
                   "boundary values (year < 1000, 999999 us, trailing zeros) are what a sample misses and a solver query covers.",
     "level_note": "Stubs (contract-tested each run): glibc strftime (unpadded %Y), canonical-width strptime, pytz localize/astimezone for UTC, "
-                  "STIXdatetime metadata. Outside the claim: non-zero UTC offsets and date (not datetime) inputs (C astimezone/combine), Feb 29, "
+                  "STIXdatetime metadata. Non-zero UTC offsets and date inputs are covered only by enumerated cases (C astimezone/combine cannot be modelled); Feb 29 in the symbolic model, "
                   "non-canonical-width input text.",
     "technique": "AST-to-SMT symbolic interpretation of the real functions (pysym over z3, QF_LIA), per-path unsat queries; witnesses replayed natively",
-    "outside": ["non-zero UTC offsets, date inputs", "leap days", "input text with 1-digit month/day/time fields (strptime accepts them)"],
+    "outside": ["non-zero UTC offsets and dates beyond the enumerated table", "leap days in the symbolic model", "input text with 1-digit month/day/time fields (strptime accepts them)"],
     "assumptions": STUB_NOTES,
 }
 
@@ -29,6 +29,10 @@ def obligations(tier):
             bounds="every canonical text with no fraction or 0..8 (quick) / 0..9 (thorough) fraction digits, symbolic digits and fields, 3x2 settings"),
         JOB("timestamp_property_clean", M, "job_property_clean", 600, functions=["stix2.properties.TimestampProperty.clean"] + F[:2], stubs=STUB_NOTES,
             bounds="6 property settings x (plain datetime or STIXdatetime carrying any of 6 other settings) x naive/UTC-aware; all fields symbolic"),
+        CH("nonzero_offsets_enumerated", "props.h_C15", "offsets", 300, mode="E1s", functions=F[:2],
+           bounds="7 UTC offsets (-12:00..+14:00 incl. +05:45, -05:30) x 8 instants (day/year rollover, leap day, year 999/1/9999) x 6 settings x 3 tz kinds; "
+                  "independent calendar arithmetic (days-from-civil); enumeration, the symbolic model does not cover C astimezone"),
+        CH("date_inputs_enumerated", "props.h_C15", "dates", 300, mode="E1s", functions=F[1:2], bounds="8 dates x 6 settings (midnight UTC)"),
         JOB("order_preserved", M, "job_order", 60, engine="smt", functions=F[1:2],
             bounds="all pairs of microsecond values 0..999999, 3x2 settings (z3 Int, no bound on the arithmetic)"),
     ]
